@@ -146,7 +146,7 @@ def main():
         for l in open(a.out):
             j = json.loads(l)
             done.add((j['file'], j['line'], j['kind']))
-    todo = [s for s in allsites if (s[0], s[1], s[2]) not in done][:a.n]
+    todo = [s for s in allsites if (s[0], s[1] + 1, s[2]) not in done][:a.n]
     print('mutation sites: %d, already done: %d, this run: %d' % (len(allsites), len(done), len(todo)), flush=True)
     base = '/tmp/mc'
     shutil.rmtree(base, ignore_errors=True)
